@@ -8,12 +8,17 @@ use std::sync::{Arc, Mutex};
 
 pub(super) struct BucketQueue<VM: VMBinding> {
     queue: Injector<Box<dyn GCWork<VM>>>,
+    /// The stage this queue belongs to (only for the event log).
+    #[cfg(feature = "mmtk_verif")]
+    verif_stage: std::sync::atomic::AtomicUsize,
 }
 
 impl<VM: VMBinding> BucketQueue<VM> {
     fn new() -> Self {
         Self {
             queue: Injector::new(),
+            #[cfg(feature = "mmtk_verif")]
+            verif_stage: std::sync::atomic::AtomicUsize::new(usize::MAX),
         }
     }
 
@@ -29,13 +34,30 @@ impl<VM: VMBinding> BucketQueue<VM> {
     }
 
     fn push(&self, w: Box<dyn GCWork<VM>>) {
+        #[cfg(feature = "mmtk_verif")]
+        crate::verif::emit_packet(
+            crate::verif::EV_ADD,
+            self.verif_stage.load(Ordering::Relaxed) as u64,
+            w.as_ref(),
+        );
         self.queue.push(w);
     }
 
     fn push_all(&self, ws: Vec<Box<dyn GCWork<VM>>>) {
         for w in ws {
+            #[cfg(feature = "mmtk_verif")]
+            crate::verif::emit_packet(
+                crate::verif::EV_ADD,
+                self.verif_stage.load(Ordering::Relaxed) as u64,
+                w.as_ref(),
+            );
             self.queue.push(w);
         }
+    }
+
+    #[cfg(feature = "mmtk_verif")]
+    fn verif_set_stage(&self, stage: WorkBucketStage) {
+        self.verif_stage.store(stage.into_usize(), Ordering::Relaxed);
     }
 
     /// Dump all the packets in this queue for debugging purpose.
@@ -108,6 +130,22 @@ pub struct WorkBucket<VM: VMBinding> {
 
 impl<VM: VMBinding> WorkBucket<VM> {
     pub(crate) fn new(stage: WorkBucketStage, monitor: Arc<WorkerMonitor>) -> Self {
+        #[cfg(feature = "mmtk_verif")]
+        {
+            let queue = BucketQueue::new();
+            queue.verif_set_stage(stage);
+            return Self {
+                open: AtomicBool::new(stage.is_open_by_default()),
+                enabled: AtomicBool::new(stage.is_enabled_by_default()),
+                stage,
+                queue,
+                prioritized_queue: None,
+                monitor,
+                can_open: None,
+                sentinel: Mutex::new(None),
+            };
+        }
+        #[cfg(not(feature = "mmtk_verif"))]
         Self {
             open: AtomicBool::new(stage.is_open_by_default()),
             enabled: AtomicBool::new(stage.is_enabled_by_default()),
@@ -121,6 +159,14 @@ impl<VM: VMBinding> WorkBucket<VM> {
     }
 
     pub fn set_enabled(&self, enabled: bool) {
+        #[cfg(feature = "mmtk_verif")]
+        crate::verif::emit(
+            crate::verif::EV_BUCKET_ENABLE,
+            self.stage.into_usize() as u64,
+            enabled as u64,
+            0,
+            0,
+        );
         self.enabled.store(enabled, Ordering::SeqCst)
     }
 
@@ -130,6 +176,11 @@ impl<VM: VMBinding> WorkBucket<VM> {
 
     pub fn enable_prioritized_queue(&mut self) {
         self.prioritized_queue = Some(BucketQueue::new());
+        #[cfg(feature = "mmtk_verif")]
+        self.prioritized_queue
+            .as_ref()
+            .unwrap()
+            .verif_set_stage(self.stage);
     }
 
     fn notify_one_worker(&self) {
@@ -156,6 +207,14 @@ impl<VM: VMBinding> WorkBucket<VM> {
 
     /// Open the bucket
     pub fn open(&self) {
+        #[cfg(feature = "mmtk_verif")]
+        crate::verif::emit(
+            crate::verif::EV_BUCKET_OPEN,
+            self.stage.into_usize() as u64,
+            0,
+            0,
+            0,
+        );
         self.open.store(true, Ordering::SeqCst);
     }
 
@@ -181,6 +240,14 @@ impl<VM: VMBinding> WorkBucket<VM> {
             self.stage
         );
         self.open.store(false, Ordering::Relaxed);
+        #[cfg(feature = "mmtk_verif")]
+        crate::verif::emit(
+            crate::verif::EV_BUCKET_CLOSE,
+            self.stage.into_usize() as u64,
+            0,
+            0,
+            0,
+        );
     }
 
     /// Add a work packet to this bucket
@@ -254,6 +321,12 @@ impl<VM: VMBinding> WorkBucket<VM> {
 
     pub fn set_sentinel(&self, new_sentinel: Box<dyn GCWork<VM>>) {
         let mut sentinel = self.sentinel.lock().unwrap();
+        #[cfg(feature = "mmtk_verif")]
+        crate::verif::emit_packet(
+            crate::verif::EV_SENTINEL_SET,
+            self.stage.into_usize() as u64,
+            new_sentinel.as_ref(),
+        );
         *sentinel = Some(new_sentinel);
     }
 
@@ -283,6 +356,12 @@ impl<VM: VMBinding> WorkBucket<VM> {
             sentinel.take()
         };
         if let Some(work) = maybe_sentinel {
+            #[cfg(feature = "mmtk_verif")]
+            crate::verif::emit_packet(
+                crate::verif::EV_SENTINEL_SCHEDULED,
+                self.stage.into_usize() as u64,
+                work.as_ref(),
+            );
             // We don't need to notify other workers because this function is called by the last
             // parked worker.  After this function returns, the caller will notify workers because
             // more work packets become available.
